@@ -1,9 +1,10 @@
 package c03
 
-// code -> spec: random larger descriptors, random merge sequences on a few replicas (fresh updates,
-// re-delivered and relayed changes, full-state pushes, local CAS writes), every Merge call logged
-// with the receiver before and after, the argument and the returned change. RingMergeTrace.tla /
-// PartitionMergeTrace.tla recompute every call with the specification's Merge.
+// code -> spec, partition ring (the instance-ring recorder is abs.RecordRingMerges): random descriptors
+// with 8 partitions / 6 owners, random merge sequences on three replicas (fresh updates, re-delivered and
+// relayed changes, full-state pushes, local CAS writes through the descriptor's own mutators), every
+// Merge call logged with the receiver before and after, the argument and the returned change.
+// PartitionMergeTrace.tla recomputes every call with the specification's Merge.
 
 import (
 	"fmt"
@@ -15,178 +16,6 @@ import (
 
 	"github.com/grafana/dskit/ring"
 )
-
-var liveAndLeft = []string{"ACTIVE", "LEAVING", "PENDING", "JOINING", "LEFT", "ACTIVE", "ACTIVE", "LEAVING"}
-
-type ringEvent struct {
-	R      int       `json:"r"`
-	Mine   abs.MDesc `json:"mine"`
-	Other  abs.MDesc `json:"other"`
-	Cas    bool      `json:"cas"`
-	Now    int       `json:"now"`
-	Result abs.MDesc `json:"result"`
-	Nil    bool      `json:"nil"`
-	Change abs.MDesc `json:"change"`
-}
-
-// projectRaw projects a descriptor that need not be normalised (token lists as sets).
-func projectRaw(d *ring.Desc, n int, emb abs.Embedding) abs.MDesc {
-	c := &ring.Desc{Ingesters: map[string]ring.InstanceDesc{}}
-	for id, ing := range d.Ingesters {
-		seen := map[uint32]bool{}
-		var toks []uint32
-		for _, t := range ing.Tokens {
-			if !seen[t] {
-				seen[t] = true
-				toks = append(toks, t)
-			}
-		}
-		for i := 1; i < len(toks); i++ { // insertion sort, tiny lists
-			for j := i; j > 0 && toks[j-1] > toks[j]; j-- {
-				toks[j-1], toks[j] = toks[j], toks[j-1]
-			}
-		}
-		ing.Tokens = toks
-		c.Ingesters[id] = ing
-	}
-	out, _ := abs.ProjectDesc(c, n, emb)
-	return out
-}
-
-func recordRing(dr *driver, dir string) {
-	n := abs.EnvInt("VERIF_TN", 12)
-	m := abs.EnvInt("VERIF_TM", 24)
-	steps := abs.EnvInt("VERIF_TSTEPS", 400)
-	maxNow := abs.EnvInt("VERIF_TMAXNOW", 6)
-	const nrep = 3
-	rnd := rand.New(rand.NewSource(abs.Seed()*7919 + 11))
-	emb := abs.RandomEmbedding(m, rnd)
-	if abs.Seed()%2 == 0 {
-		emb = abs.BoundaryEmbedding(m)
-	}
-	w, err := abs.NewNDJSONWriter(filepath.Join(dir, "ring_trace.ndjson"))
-	if err != nil {
-		dr.res.Fatal = err.Error()
-		return
-	}
-	defer w.Close()
-
-	replicas := make([]*ring.Desc, nrep)
-	for i := range replicas {
-		replicas[i] = ring.NewDesc()
-	}
-	var msgs []*ring.Desc
-	now := 1
-	abs.SleepUntil(now)
-	per := m / n
-	if per < 1 {
-		per = 1
-	}
-	randEntry := func(k int, ts int) abs.MEntry {
-		e := abs.MEntry{Ts: ts, State: liveAndLeft[rnd.Intn(len(liveAndLeft))], Toks: []int{}}
-		for c := rnd.Intn(3); c > 0; c-- {
-			p := (k*per + rnd.Intn(per)) % m // the instance's own block
-			if rnd.Intn(6) == 0 {
-				p = rnd.Intn(m) // somebody else's: a collision in the making
-			}
-			dup := false
-			for _, q := range e.Toks {
-				dup = dup || q == p
-			}
-			if !dup {
-				e.Toks = append(e.Toks, p)
-			}
-		}
-		return e
-	}
-	recentTs := func() int {
-		ts := now - rnd.Intn(3)
-		if ts < 0 || rnd.Intn(40) == 0 {
-			ts = 0
-		}
-		return ts
-	}
-	deliver := func(r int, other *ring.Desc, cas bool) {
-		ev := ringEvent{R: r + 1, Cas: cas, Now: abs.UnixToTs(time.Now().Unix())}
-		var problems []string
-		ev.Mine, problems = abs.ProjectDesc(replicas[r], n, emb)
-		ev.Other = projectRaw(other, n, emb)
-		ch, err, pan := safeMerge(replicas[r], other, cas)
-		if pan != "" || err != nil {
-			dr.res.Mismatch(abs.Mismatch{Sig: "ring:trace panic-or-error", Case: ev, Got: fmt.Sprint(pan, err), Want: "no panic, no error"})
-			return
-		}
-		var p2, p3 []string
-		ev.Result, p2 = abs.ProjectDesc(replicas[r], n, emb)
-		ev.Nil = abs.IsNilMergeable(ch)
-		ev.Change = make(abs.MDesc, n)
-		for k := range ev.Change {
-			ev.Change[k] = abs.MEntry{State: "ABSENT", Toks: []int{}}
-		}
-		if !ev.Nil {
-			chd := ch.(*ring.Desc)
-			ev.Change, p3 = abs.ProjectDesc(chd, n, emb)
-			msgs = append(msgs, viaCodec(chd))
-		}
-		if problems = append(append(problems, p2...), p3...); len(problems) > 0 {
-			dr.res.Mismatch(abs.Mismatch{Sig: "ring:trace receiver-or-change-not-normalised", Case: ev, Got: problems, Want: "sorted duplicate-free token lists"})
-		}
-		if corrupt > 0 && w.N+1 == corrupt {
-			ev.Result[0].Ts += 1 // self-test: one corrupted logged field must make the validator reject
-		}
-		if err := w.Write(ev); err != nil {
-			dr.res.Fatal = err.Error()
-		}
-	}
-	for s := 0; s < steps && dr.res.Fatal == ""; s++ {
-		switch c := rnd.Intn(100); {
-		case c < 8:
-			if now < maxNow {
-				now++
-				abs.SleepUntil(now)
-			}
-		case c < 45: // a fresh update from some peer
-			u := make(abs.MDesc, n)
-			for k := range u {
-				u[k] = abs.MEntry{State: "ABSENT", Toks: []int{}}
-			}
-			for c := 1 + rnd.Intn(3); c > 0; c-- {
-				k := rnd.Intn(n)
-				u[k] = randEntry(k, recentTs())
-			}
-			deliver(rnd.Intn(nrep), abs.BuildDesc(u, abs.RingBuild{Emb: emb, Rnd: rnd, Tag: "u"}), false)
-		case c < 68: // an earlier change is delivered (again, late, to anybody)
-			if len(msgs) > 0 {
-				deliver(rnd.Intn(nrep), viaCodec(msgs[rnd.Intn(len(msgs))]), false)
-			}
-		case c < 78: // full state push
-			a, b := rnd.Intn(nrep), rnd.Intn(nrep)
-			if a != b {
-				deliver(b, viaCodec(replicas[a]), false)
-			}
-		default: // local CAS: the visible content with a few entries rewritten / removed
-			r := rnd.Intn(nrep)
-			out := viaCodec(replicas[r])
-			out.RemoveTombstones(time.Time{})
-			for c := 1 + rnd.Intn(2); c > 0; c-- {
-				k := rnd.Intn(n)
-				id := abs.MergeID(k+1, n)
-				if _, ok := out.Ingesters[id]; ok && rnd.Intn(2) == 0 {
-					out.RemoveIngester(id)
-					continue
-				}
-				one := make(abs.MDesc, n)
-				for j := range one {
-					one[j] = abs.MEntry{State: "ABSENT", Toks: []int{}}
-				}
-				one[k] = randEntry(k, now)
-				out.Ingesters[id] = abs.BuildDesc(one, abs.RingBuild{Emb: emb, Rnd: rnd, Tag: "cas"}).Ingesters[id]
-			}
-			deliver(r, out, true)
-		}
-	}
-	dr.res.AddExtra("ring_trace_events", w.N)
-}
 
 // ------------------------------------------------------------------------------------------- partition ring
 
@@ -207,7 +36,7 @@ func recordPart(dr *driver, dir string) {
 	np := abs.EnvInt("VERIF_TNP", 8)
 	no := abs.EnvInt("VERIF_TNO", 6)
 	steps := abs.EnvInt("VERIF_TSTEPS", 400)
-	maxNow := abs.EnvInt("VERIF_TMAXNOW", 6)
+	maxNow := abs.EnvInt("VERIF_TMAXNOW", 60)
 	const nrep = 3
 	rnd := rand.New(rand.NewSource(abs.Seed()*104729 + 13))
 	w, err := abs.NewNDJSONWriter(filepath.Join(dir, "part_trace.ndjson"))
@@ -224,8 +53,11 @@ func recordPart(dr *driver, dir string) {
 	now := 1
 	abs.SleepUntil(now)
 	recentTs := func() int {
-		ts := now - rnd.Intn(3)
-		if ts < 0 || rnd.Intn(40) == 0 {
+		ts := now
+		if rnd.Intn(3) == 0 {
+			ts = now - 1 - rnd.Intn(2)
+		}
+		if ts < 0 || rnd.Intn(50) == 0 {
 			ts = 0
 		}
 		return ts
@@ -270,12 +102,12 @@ func recordPart(dr *driver, dir string) {
 	}
 	for s := 0; s < steps && dr.res.Fatal == ""; s++ {
 		switch c := rnd.Intn(100); {
-		case c < 8:
+		case c < 20:
 			if now < maxNow {
 				now++
 				abs.SleepUntil(now)
 			}
-		case c < 45:
+		case c < 60:
 			u := empty()
 			for c := 1 + rnd.Intn(3); c > 0; c-- {
 				if rnd.Intn(2) == 0 && np > 0 {
@@ -290,11 +122,11 @@ func recordPart(dr *driver, dir string) {
 				}
 			}
 			deliver(rnd.Intn(nrep), abs.BuildPDesc(u, tagMine), false)
-		case c < 68:
+		case c < 70:
 			if len(msgs) > 0 {
 				deliver(rnd.Intn(nrep), pViaCodec(msgs[rnd.Intn(len(msgs))]), false)
 			}
-		case c < 78:
+		case c < 77:
 			a, b := rnd.Intn(nrep), rnd.Intn(nrep)
 			if a != b {
 				deliver(b, pViaCodec(replicas[a]), false)
